@@ -27,6 +27,22 @@ P = {
    technique="path-sensitive typestate on SSA for the four-channel writer protocol, guard extraction, sibling comparison of Write/putRec",
    text="Decides the per-path accounting of the merge protocol: each received request answered exactly once, each merged writer acknowledged exactly once with the group's result, exactly one unlock/hand-off per leader exit carrying the loop's own state, sync flag or-ed over the group. Cross-goroutine rendezvous order is NOT decided.",
    ref="DESIGN.md §2 C10"),
+ "C02": dict(
+   technique="guard extraction over SSA (visibility/tombstone guards), value-origin flow (probes, merged sources), exhaustiveness over all iterator implementations (go/types method sets)",
+   text="Decides structural necessary conditions of iterator correctness: visibility/tombstone guards of dbIter.next/prev, probe and range-bound construction, that no source iterator is lost before merging, heap order of the merged iterator, and that all 35 movement methods of the 7 iterator implementations test the released state before touching their sources. Cursor equivalence over arbitrary movement sequences (direction-change state machines, block/table boundary slicing) is value-dependent and NOT decided.",
+   ref="DESIGN.md §2 C02"),
+ "C03": dict(
+   technique="typestate pairing (snapshot registration), guard extraction (drop guard, list bookkeeping), ownership-transfer flow (releasers), value-origin flow at every read call site",
+   text="Decides the structural necessary conditions of frozen views: reads register a snapshot element for their duration, the snapshot list is oldest-first with remove-at-zero, the compaction drop guard refers to the oldest live snapshot and the base level, iterators pin version and buffers through releasers without early release, and every read is filtered by the view's own sequence. Sufficiency of the guard for all snapshot sets × layouts and behaviour over time are NOT decided.",
+   ref="DESIGN.md §2 C03"),
+ "C05": dict(
+   technique="must-precede on SSA (acquisition/publication orders), guarded-by lockset analysis with requires-lock summaries, who-may-call reachability for the sequence helpers, size-model check of 64-bit atomics",
+   text="Decides the publication/acquisition ORDERS (sequence → buffers → version for readers; insert → publish for writers; install → drop for flushes; install → publish for transactions), the guarded-by discipline of the shared pointers and reference counts, the atomic-only discipline of DB.seq and the single-writer token contracts. Interleavings and linearizability as such are NOT decided; a broken clause is a schedule with an inconsistent cut.",
+   ref="DESIGN.md §2 C05"),
+ "C06": dict(
+   technique="comparer-discipline scan, guard extraction (writer order check, sort-by-level, insertion shortcut), value-origin flow (bounds, levels of the compaction edit), who-may-call for the trivial flag",
+   text="Decides the code shapes that establish the LSM invariant: comparer used for every key comparison, outputs cut at user-key boundaries, writer rejects disorder and records true bounds, levels sorted (or legally inserted) on install, a compaction edit deletes exactly its inputs and adds outputs one level down after expanding inputs, recovered tables at level 0. The invariant on actual versions is NOT decided.",
+   ref="DESIGN.md §2 C06"),
 }
 
 PENDING = "rules for this property are not armed in this revision of /verif (work in progress); it is not claimed until its checks are silent on the tree and kill their own mutants"
